@@ -65,7 +65,7 @@ End C20.
   parallel_axis_ref spatial_inertia inertia_add : smlin.
 
 (* ------------------------------------------------------------------------------------------------
-   Dispatch model of the class layer (no arithmetic).  Mirrors the code AS IT IS (HEAD 66a8f3b):
+   Dispatch model of the class layer (no arithmetic).  Mirrors the code AS IT IS (HEAD 5371e50):
      SpatialVector.__add__/__sub__ : `type(left) != type(right)` -> TypeError, then `len` differ -> ValueError,
                                      then left.__class__([...]) (an empty list gives an empty object since 1105ad0)
      SpatialVector.__neg__         : same constructor
@@ -97,6 +97,8 @@ Definition addsub_model (l : svc) (nl : nat) (r : rcls) (nr : nat) : outcome :=
   | SV c => if svc_eqb l c then (if Nat.eqb nl nr then construct l nl else Raise ValueError) else Raise TypeError
   end.
 Definition neg_model (l : svc) (n : nat) : outcome := construct l n.
+(* x += y / x -= y: SMUserList.__iadd__ is `return self + other` (/repo 5371e50); there is no __isub__, so Python evaluates x - y *)
+Definition inplace_model (l : svc) (nl : nat) (r : rcls) (nr : nat) : outcome := addsub_model l nl r nr.
 Definition copy_model (l : svc) (n : nat) : outcome := construct l n.
 
 (* left operand single-valued, right operand with n values *)
